@@ -25,7 +25,9 @@ Record SInv (s : sess) : Prop := {
   i_peer : peer_open s = false -> rcause s = true;
   i_qc : qclosed s = true -> lclosed s = true \/ exited s = true;
   i_cause : exited s = true -> rcause s = true \/ lclosed s = true \/ wfail s = true;   (* no exit without something that was asked for *)
-  i_amb : amb (hx s) = false -> exited s = true -> exit_h (hx s) = hid (hx s)             (* the handler told is the one in charge *)
+  i_amb : amb (hx s) = false -> picked (hx s) = true \/ exited s = true -> exit_h (hx s) = hid (hx s);   (* the handler told is the one in charge *)
+  i_pick : picked (hx s) = true -> rcause s = true \/ lclosed s = true \/ wfail s = true;
+  i_expick : exited s = true -> picked (hx s) = true
 }.
 
 Lemma fresh_inv t r h : SInv (fresh t r h).
@@ -33,6 +35,7 @@ Proof.
   constructor; cbn; try discriminate; auto.
   - intros [H|H]; discriminate.
   - exists []. reflexivity.
+  - intros _ [H|H]; discriminate.
 Qed.
 
 Lemma concat_app1 {A} (l : list (list A)) x : concat (l ++ [x]) = concat l ++ x.
@@ -43,12 +46,13 @@ Proof. rewrite concat_app. cbn. now rewrite app_nil_r. Qed.
 Definition flag_ok (s s' : sess) (d : bool) : Prop :=
   started s' = started s /\ if d then exited s = false /\ exited s' = true else exited s' = exited s.
 
-Ltac des s := destruct s as [t st q0 qc co sl rl ex oe wf rc po pr rv ib ac cl lc ws [hi he ha]].
-Ltac fin := constructor; cbn in *; intros; try solve [intuition (auto; try discriminate; try congruence)].
+Ltac des s := destruct s as [t st q0 qc co sl rl ex oe wf rc po pr rv ib ac cl lc ws [hi he ha hp]].
+Ltac fin := constructor; cbn in *; intros; try solve [intuition (auto; try discriminate; try congruence)];
+  try solve [match goal with |- context [if ?b then _ else _] => destruct b; intuition (auto; try discriminate; try congruence) end].
 
 Lemma inv_recvend s s' d : SInv s -> sess_step s RecvEnd = Some (s', d) -> SInv s' /\ flag_ok s s' d.
 Proof.
-  intros I H. des s. destruct I as [I1 I2 I3 I4 I5 I6 I7 I8 I9 J1 J2 J3 J4]. unfold flag_ok. cbn in *.
+  intros I H. des s. destruct I as [I1 I2 I3 I4 I5 I6 I7 I8 I9 J1 J2 J3 J4 J5 J6]. unfold flag_ok. cbn in *.
   destruct rl; cbn in H; [|discriminate].
   destruct (rc || negb co) eqn:E; [|discriminate].
   unfold leave_recv, quit in H; cbn in H. destruct ex; inversion H; subst; clear H; cbn.
@@ -58,7 +62,7 @@ Qed.
 
 Lemma inv_sendstep s s' d : SInv s -> sess_step s SendStep = Some (s', d) -> SInv s' /\ flag_ok s s' d.
 Proof.
-  intros I H. des s. destruct I as [I1 I2 I3 I4 I5 I6 I7 I8 I9 J1 J2 J3 J4]. unfold flag_ok. cbn in *.
+  intros I H. des s. destruct I as [I1 I2 I3 I4 I5 I6 I7 I8 I9 J1 J2 J3 J4 J5 J6]. unfold flag_ok. cbn in *.
   destruct sl; cbn in H; [|discriminate].
   destruct q0 as [|x r].
   - (* empty queue *)
@@ -78,6 +82,7 @@ Proof.
         -- split; [|auto]. specialize (I3 eq_refl). subst co. fin.
            ++ destruct I7 as (A & B & C & E' & F); auto. subst wf po. cbn in E. discriminate.
            ++ destruct wf; [auto|]. cbn in E. apply negb_true_iff in E. subst po. left. apply J1. reflexivity.
+           ++ destruct wf; [auto|]. cbn in E. apply negb_true_iff in E. subst po. left. apply J1. reflexivity.
       * (* the write succeeds if the peer reads *)
         destruct pr; [|discriminate]. inversion H; subst; clear H; cbn.
         apply orb_false_elim in E as [E E4]. apply orb_false_elim in E as [E2 E3].
@@ -89,7 +94,7 @@ Qed.
 
 Lemma inv_sendlost s s' d : SInv s -> sess_step s SendLost = Some (s', d) -> SInv s' /\ flag_ok s s' d.
 Proof.
-  intros I H. des s. destruct I as [I1 I2 I3 I4 I5 I6 I7 I8 I9 J1 J2 J3 J4]. unfold flag_ok. cbn in *.
+  intros I H. des s. destruct I as [I1 I2 I3 I4 I5 I6 I7 I8 I9 J1 J2 J3 J4 J5 J6]. unfold flag_ok. cbn in *.
   destruct sl; cbn in H; [|discriminate].
   destruct q0 as [|x r]; [discriminate|].
   destruct (negb (is_nil x) && co && negb wf && negb po && is_tcp t) eqn:E; [|discriminate].
@@ -101,7 +106,7 @@ Qed.
 
 Lemma inv_send s bs ok s' d : SInv s -> sess_step s (Send bs ok) = Some (s', d) -> SInv s' /\ flag_ok s s' d.
 Proof.
-  intros I H. des s. destruct I as [I1 I2 I3 I4 I5 I6 I7 I8 I9 J1 J2 J3 J4]. unfold flag_ok. cbn in *.
+  intros I H. des s. destruct I as [I1 I2 I3 I4 I5 I6 I7 I8 I9 J1 J2 J3 J4 J5 J6]. unfold flag_ok. cbn in *.
   destruct (Bool.eqb ok (negb qc)) eqn:E; [|discriminate]. apply eqb_prop in E. subst ok.
   destruct qc; cbn in H; inversion H; subst; clear H; cbn.
   - split; [fin|auto].
@@ -119,20 +124,41 @@ Lemma inv_other s a s' d : SInv s ->
   match a with LocalClose | StartAgain | SetHandler _ | PeerClose | PeerRead | PeerByte | RecvFault _ | WriteFault _ => True | _ => False end ->
   sess_step s a = Some (s', d) -> SInv s' /\ flag_ok s s' d.
 Proof.
-  intros I Ha H. des s. destruct I as [I1 I2 I3 I4 I5 I6 I7 I8 I9 J1 J2 J3 J4]. unfold flag_ok.
+  intros I Ha H. des s. destruct I as [I1 I2 I3 I4 I5 I6 I7 I8 I9 J1 J2 J3 J4 J5 J6]. unfold flag_ok.
   destruct a; try contradiction; cbn in *.
   - inversion H; subst; clear H; cbn. split; [fin|auto].
   - inversion H; subst; clear H; cbn. split; [fin|auto].
   - (* UpdateHandler *)
     inversion H; subst; clear H; cbn. split; [|auto]. fin.
     exfalso. apply orb_false_elim in H as [H Hw]. apply orb_false_elim in H as [H Hl]. apply orb_false_elim in H as [_ Hr].
-    destruct (J3 H0) as [X|[X|X]]; congruence.
+    assert (Hp : hp = true) by (destruct H0 as [X|X]; [exact X|exact (J6 X)]).
+    destruct (J5 Hp) as [X|[X|X]]; congruence.
   - destruct po; [|discriminate]. inversion H; subst; clear H; cbn. split; [fin|auto].
   - destruct (po && negb pr); [|discriminate]. inversion H; subst; clear H; cbn. split; [fin|auto].
   - destruct po; [|discriminate]. destruct (rl && negb rc && co); inversion H; subst; clear H; cbn; (split; [fin|auto]).
   - destruct (match k with RErr | RTimeout => true | _ => po end); [|discriminate].
     inversion H; subst; clear H; cbn. split; [fin|auto].
   - inversion H; subst; clear H; cbn. split; [fin|auto].
+Qed.
+
+Lemma can_leave_cause s : SInv s -> exited s = false -> can_leave s = true -> rcause s = true \/ lclosed s = true \/ wfail s = true.
+Proof.
+  intros I Ex C. pose proof (i_open s I Ex) as Co. unfold can_leave in C. rewrite Co in C. cbn [negb] in C. rewrite !orb_false_r in C.
+  apply orb_prop in C as [C|C].
+  - apply andb_prop in C as [_ C]. auto.
+  - apply andb_prop in C as [_ C]. destruct (q s) as [|x r].
+    + destruct (i_qc s I C) as [X|X]; [auto|congruence].
+    + apply andb_prop in C as [_ C]. cbn [orb] in C. apply orb_prop in C as [C|C]; [auto|].
+      apply negb_true_iff in C. left. exact (i_peer s I C).
+Qed.
+
+Lemma inv_pick s s' d : SInv s -> sess_step s Pick = Some (s', d) -> SInv s' /\ flag_ok s s' d.
+Proof.
+  intros I H. pose proof (can_leave_cause s I) as CC. des s. destruct I as [I1 I2 I3 I4 I5 I6 I7 I8 I9 J1 J2 J3 J4 J5 J6]. unfold flag_ok.
+  cbn [sess_step hx picked exited] in H.
+  destruct (negb hp && negb ex && can_leave _) eqn:E; [|discriminate].
+  apply andb_prop in E as [E Ec]. apply andb_prop in E as [Ep Ee]. apply negb_true_iff in Ep, Ee. subst hp ex.
+  inversion H; subst; clear H. cbn in *. split; [|auto]. fin.
 Qed.
 
 Theorem sess_step_inv s a s' d : SInv s -> sess_step s a = Some (s', d) -> SInv s' /\ flag_ok s s' d.
@@ -150,6 +176,7 @@ Proof.
   - eapply inv_sendstep; eauto.
   - eapply inv_sendlost; eauto.
   - eapply inv_recvend; eauto.
+  - eapply inv_pick; eauto.
 Qed.
 
 (* ------------------------------------------------------------------ the composed machine *)
@@ -333,6 +360,17 @@ Proof. unfold leave_send. destruct (quit s). discriminate. Qed.
 Lemma leave_recv_some s : leave_recv s <> None.
 Proof. unfold leave_recv. destruct (quit s). discriminate. Qed.
 
+Lemma quiet_no_pick s : started s = true -> quiet s = true -> sess_step s Pick = None.
+Proof.
+  intros St Q. destruct (quiet_started s St Q) as (A & _ & C). unfold sess_step.
+  destruct (negb (picked (hx s)) && negb (exited s) && can_leave s) eqn:E; [|reflexivity]. exfalso.
+  apply andb_prop in E as [_ E]. unfold can_leave in E. apply orb_prop in E as [E|E].
+  - unfold sess_step in C. rewrite E in C. eapply leave_recv_some; eauto.
+  - apply andb_prop in E as [Sl E]. unfold sess_step in A. rewrite Sl in A. cbn in A. destruct (q s) as [|x r].
+    + rewrite E in A. eapply leave_send_some; eauto.
+    + apply andb_prop in E as [E1 E2]. apply negb_true_iff in E1. rewrite E1, E2 in A. eapply leave_send_some; eauto.
+Qed.
+
 (* a send loop that still runs at quiescence is parked in PopAnyway on an open empty queue, or blocked in a write
    towards a peer that does not read, with no fault pending and the connection up *)
 Lemma quiet_sendl s : started s = true -> quiet s = true -> sendl s = true ->
@@ -372,28 +410,32 @@ Qed.
 
 (* ---- the session's own steps terminate ---- *)
 Definition b2n (b : bool) : nat := if b then 1%nat else 0%nat.
-Definition mu (s : sess) : nat := (length (q s) + b2n (sendl s) + b2n (recvl s))%nat.
+Definition mu (s : sess) : nat := (2 * (length (q s) + b2n (sendl s) + b2n (recvl s)) + b2n (negb (picked (hx s))))%nat.
 
-Lemma quit_mu s s1 d : quit s = (s1, d) -> q s1 = q s /\ sendl s1 = sendl s /\ recvl s1 = recvl s.
-Proof. unfold quit. destruct (exited s); intros H; inversion H; subst; cbn; auto. Qed.
+Lemma quit_mu s s1 d : quit s = (s1, d) -> q s1 = q s /\ sendl s1 = sendl s /\ recvl s1 = recvl s /\
+  (b2n (negb (picked (hx s1))) <= b2n (negb (picked (hx s))))%nat.
+Proof. unfold quit. destruct (exited s); intros H; inversion H; subst; cbn; repeat split; auto. destruct (picked (hx s)); cbn; lia. Qed.
 
 Lemma internal_decreases s a s' d : internal_act a = true -> sess_step s a = Some (s', d) -> (mu s' < mu s)%nat.
 Proof.
   intros Ia H. destruct a; try discriminate; unfold sess_step in H.
   - destruct (sendl s) eqn:Sl; cbn in H; [|discriminate]. destruct (q s) as [|x r] eqn:Eq.
     + destruct (qclosed s); [|discriminate]. unfold leave_send in H. destruct (quit s) as [s1 d1] eqn:Eqt.
-      inversion H; subst; clear H. destruct (quit_mu _ _ _ Eqt) as (A & B & C). unfold mu. cbn. rewrite A, C, Eq, Sl. cbn. lia.
+      inversion H; subst; clear H. destruct (quit_mu _ _ _ Eqt) as (A & B & C & D). cbn [hx set_q] in D. unfold mu. cbn. rewrite A, C, Eq, Sl. cbn. lia.
     + destruct (is_nil x); [inversion H; subst; clear H; unfold mu; cbn; rewrite Eq, Sl; cbn; lia|].
       destruct (negb (copen s) || wfail s || negb (peer_open s)).
       * unfold leave_send in H. destruct (quit (set_q s r)) as [s1 d1] eqn:Eqt.
-        inversion H; subst; clear H. destruct (quit_mu _ _ _ Eqt) as (A & B & C). unfold mu. cbn in *. rewrite A, C, Eq, Sl. cbn. lia.
+        inversion H; subst; clear H. destruct (quit_mu _ _ _ Eqt) as (A & B & C & D). cbn [hx set_q] in D. unfold mu. cbn in *. rewrite A, C, Eq, Sl. cbn. lia.
       * destruct (peer_reads s); [|discriminate]. inversion H; subst; clear H. unfold mu. cbn. rewrite Eq, Sl. cbn. lia.
   - destruct (sendl s) eqn:Sl; cbn in H; [|discriminate]. destruct (q s) as [|x r] eqn:Eq; [discriminate|].
     destruct (negb (is_nil x) && copen s && negb (wfail s) && negb (peer_open s) && is_tcp (tr s)); [|discriminate].
     inversion H; subst; clear H. unfold mu. cbn. rewrite Eq, Sl. cbn. lia.
   - destruct (recvl s) eqn:Rl; cbn in H; [|discriminate]. destruct (rcause s || negb (copen s)); [|discriminate].
     unfold leave_recv in H. destruct (quit s) as [s1 d1] eqn:Eqt. inversion H; subst; clear H.
-    destruct (quit_mu _ _ _ Eqt) as (A & B & C). unfold mu. cbn. rewrite A, B, Rl. cbn. lia.
+    destruct (quit_mu _ _ _ Eqt) as (A & B & C & D). cbn [hx set_q] in D. unfold mu. cbn. rewrite A, B, Rl. cbn. lia.
+  - destruct (negb (picked (hx s)) && negb (exited s) && can_leave s) eqn:E; [|discriminate].
+    apply andb_prop in E as [E _]. apply andb_prop in E as [E _]. apply negb_true_iff in E.
+    inversion H; subst; clear H. unfold mu. cbn. rewrite E. cbn. lia.
 Qed.
 
 Fixpoint Mu (l : list sess) : nat := match l with [] => 0%nat | s :: r => (mu s + Mu r)%nat end.
@@ -407,7 +449,7 @@ Qed.
 (* the accept goroutine's steps: a successful Accept consumes a waiting connection (which may become a session with
    its two loops, and gives the loop its full number of retries back), a failing one consumes a retry *)
 Definition loop_budget (a : aloopst) : nat := if aloop a then S (amax a - aretry a) else 0%nat.
-Definition MU (t : st) : nat := (Mu (ss t) + (amax (al t) + 4) * pend t + loop_budget (al t))%nat.
+Definition MU (t : st) : nat := (Mu (ss t) + (amax (al t) + 7) * pend t + loop_budget (al t))%nat.
 Lemma Mu_app a b : Mu (a ++ b) = (Mu a + Mu b)%nat.
 Proof. induction a as [|s a IH]; cbn; lia. Qed.
 
@@ -418,13 +460,13 @@ Proof.
     apply andb_prop in E as [E _]. apply andb_prop in E as [E El]. apply andb_prop in E as [_ E]. apply negb_true_iff, Nat.eqb_neq in E.
     destruct (pend t) as [|p] eqn:Ep; [congruence|].
     destruct (maxc t <=? cnt t); inversion H; subst; clear H; cbn [ss pend al set_aretry amax aloop aretry Nat.pred];
-      rewrite Mu_app, El, Nat.mul_succ_r; cbn [Mu mu rejected fresh q sendl recvl length b2n]; generalize ((amax (al t) + 4) * p)%nat; intros X; unfold mu, rejected, fresh; cbn [q sendl recvl length b2n]; lia.
+      rewrite Mu_app, El, Nat.mul_succ_r; cbn [Mu mu rejected fresh q sendl recvl length b2n]; generalize ((amax (al t) + 7) * p)%nat; intros X; unfold mu, rejected, fresh; cbn; lia.
   - cbn [step] in H. destruct (negb (Nat.eqb (pend t) 0) && aloop (al t) && fdlim (al t)) eqn:E; [|discriminate].
     apply andb_prop in E as [E _]. apply andb_prop in E as [_ El].
     inversion H; subst; clear H. cbn [ss pend al]. rewrite El.
     destruct (Nat.leb (amax (al t)) (S (aretry (al t)))) eqn:Em; cbn [set_aloop set_aretry amax aloop aretry].
     + lia.
-    + apply Nat.leb_gt in Em. rewrite ?El. generalize ((amax (al t) + 4) * pend t)%nat; intros X. lia.
+    + apply Nat.leb_gt in Em. rewrite ?El. generalize ((amax (al t) + 7) * pend t)%nat; intros X. lia.
   - cbn in Il. cbn [step] in H.
     destruct (nth_error (ss t) i) as [s|] eqn:En; [|discriminate]. destruct (started s); [|discriminate].
     destruct (sess_step s a) as [[s' d]|] eqn:Es; [|discriminate]. inversion H; subst; clear H. cbn [ss pend al].
